@@ -49,17 +49,15 @@ def block_pieces(name, e):
             line("Total time              : ", V(fld(e, 'total_time')))]
 
 
-# Blocks(res, i): the strings written for the first i entries, in the order of the dictionary
-Blocks = spec('Blocks', [RESULTS, INT], LS)
+# Blocks(res, i): the text of the report for the first i entries, in the order of the dictionary (the property is about the
+# content of the file, not about how many write() calls produce it)
+Blocks = spec('Blocks', [RESULTS, INT], STR)
 
 
 def _blocks_unfold(res, i):
     S = Ty.S(RESULTS)
     key = L_arr(S.keys(res), LS)[i - 1]
-    acc = Blocks(res, i - 1)
-    for piece in block_pieces(key, S.val(res)[key]):
-        acc = L_app(acc, LS, piece)
-    return Blocks(res, i) == If(i <= 0, empty(LS), acc)
+    return Blocks(res, i) == If(i <= 0, StringVal(""), Concat(Blocks(res, i - 1), *block_pieces(key, S.val(res)[key])))
 
 
 SPEC['Blocks']['unfold'] = _blocks_unfold
@@ -69,8 +67,8 @@ contract('save_results_to_file',
          locals={'name': STR, 'game': ENTRY, 'reachability_strategies': VAL, 'final_strategies': VAL, 'total_time': VAL},
          requires=[], modifies={},
          ensures=[f"__path == 'outputs/' + old({STEM}) + '.txt'", "__mode == 'w'",           # named after the input file
-                  "__written == Blocks(game_resuts, len(okeys(game_resuts)))"],             # one block per entry, in order, each field on its line
-         loops={0: dict(inv=["__written == Blocks(game_resuts, _i)"])},
+                  "__content == Blocks(game_resuts, len(okeys(game_resuts)))"],             # one block per entry, in order, each field on its line
+         loops={0: dict(inv=["__content == Blocks(game_resuts, _i)"])},
          props=['C16'])
 contract('read_dict_from_file',
          params={'file_name': STR}, result=PYVAL, locals={'contents': STR, 'dictionary': PYVAL},
